@@ -63,6 +63,9 @@ def check_effect(ctx, e, rng):
     sid = np.array([r["s"] for r in rows], dtype=int)
     tid = np.array([list(r["t"]) for r in rows], dtype=int)
     obs = rng.uniform(0.05, 1.2, size=len(rows))
+    for i in range(len(rows)):
+        if rng.random() < 0.2:
+            obs[i] = rng.choice([0.0, 1.0, 0.5])          # exact zeros / ones / repeated values are ordinary measurements
     env = {"obs": obs}
     st, m = outcome(create_single_treatment_effect_map, sid, tid, obs)
     if st != "ok":
@@ -110,8 +113,11 @@ def check_corr_and_mse(ctx, rng):
     rows = [(0, 1, 2), (1, 2, 3), (2, 1, 0), (0, 3, 3), (1, 0, 1)]
     tn = np.array([[names[x] for x in r[1:]] for r in rows], dtype=str)
     td = np.array([[0.0 if x == 0 else float(x) for x in r[1:]] for r in rows])
+    # a mapping batchie itself could have produced for a superset, with sample ids not in name order
+    smap = (np.array(["s0", "s1", "s2"], dtype=str), np.array(list(rng.permutation(3)), dtype=int)) if rng.random() < 0.7 else None
     scr = Screen(treatment_names=tn, treatment_doses=td, sample_names=np.array(["s%d" % r[0] for r in rows], dtype=str),
-                 plate_names=np.array(["p"] * len(rows), dtype=str), observations=rng.uniform(0.1, 0.9, size=len(rows)), control_treatment_name="ctl")
+                 plate_names=np.array(["p"] * len(rows), dtype=str), observations=rng.uniform(0.1, 0.9, size=len(rows)), control_treatment_name="ctl",
+                 sample_mapping=smap)
     coef = rng.normal(size=(3, 3, 5))
 
     def mk(k):
@@ -145,9 +151,14 @@ def check_corr_and_mse(ctx, rng):
         return "correlation_matrix raised " + cm
     C = cm.values
     P = []
+    name_of = {int(i): str(nm) for nm, i in zip(*scr.sample_mapping)}
     for sid in scr.unique_sample_ids:
-        sp = generate_full_combinatoric_space(int(sid), scr)
-        P.append(np.mean([h.thetas[k].predict_viability(sp) for k in range(3)], axis=0))
+        # the definition, independently: every unordered pair of mapping rows, predicted for THIS sample id, ids from the screen's mapping
+        pairs = list(combinations(range(len(scr.treatment_mapping[0])), 2))
+        tids = [(int(scr.treatment_mapping[2][a]), int(scr.treatment_mapping[2][b])) for a, b in pairs]
+        P.append(np.mean([[h.thetas[k].f(int(sid), t) for t in tids] for k in range(3)], axis=0))
+        if list(cm.index)[list(scr.unique_sample_ids).index(sid)] != name_of[int(sid)]:
+            return "similarity matrix row label is not the sample's name"
     P = np.stack(P)
     X = P - P.mean(axis=0, keepdims=True)
     for a in range(len(P)):
